@@ -19,7 +19,7 @@ FRACTION = ["feat_con_apr_flatness", "feat_con_apr_size"]
 SIGNED = ["feat_con_cp_curvature"]
 
 HEAD = """From Coq Require Import String.
-From Coq Require Import List Bool Arith QArith.
+From Coq Require Import List Bool Arith QArith Qabs.
 From NV Require Import Base.Exn Gen.Tables Model.FitCore Model.Steps Model.Features Model.FeaturesQ.
 Import ListNotations.
 Local Open Scope Q_scope.
@@ -284,9 +284,9 @@ def oracle(run, name, idnt, fit_state):
 # --------------------------------------------------------------------------
 # correspondence with the Coq model (exact rationals)
 # --------------------------------------------------------------------------
-def preimage(v, c):
-    """interval of cores with c*log(1+core) = v up to 1e-9"""
-    eps = 1e-9 * (1 + abs(v))
+def preimage(v, c, rel=1e-9):
+    """interval of cores with c*log(1+core) = v up to rel"""
+    eps = rel * (1 + abs(v))
     lo, hi = math.expm1((v - eps) / c), math.expm1((v + eps) / c)
     return qlit(lo), qlit(hi)
 
@@ -324,6 +324,32 @@ def coq_curve_case(idnt, v):
                      "| Some _ => false end")
     lo, hi = preimage(v["feat_con_idt_sum_75perc"], 1 / 8)
     parts.append(f"q_within {lo} {hi} (q_idt_sum_75_core cp x y fit)")
+    # the filter-free baseline / contact-point features
+    none = "match {} with None => true | Some _ => false end"
+    b = v["feat_con_bln_variation"]
+    call = "q_bln_variation_core cp x y res"
+    if math.isnan(b):
+        parts.append(none.format(call))
+    else:
+        lo, hi = preimage(b, 1 / 5)
+        parts.append(f"q_opt_within {lo} {hi} ({call})")
+    b = v["feat_con_bln_slope"]
+    call = "q_opt_abs (q_bln_slope_core cp x y res)"
+    if math.isnan(b):
+        parts.append(none.format(call))
+    else:
+        lo, hi = preimage(b, 1 / 10, rel=1e-6)
+        parts.append(f"q_opt_within {lo} {hi} ({call})")
+    b = v["feat_con_cp_curvature"]
+    call = "q_cp_curvature_core cp x y"
+    if math.isnan(b):
+        parts.append(none.format(call))
+    else:
+        lo, hi = preimage(abs(b), 1 / 4)
+        sign = ("Qle_bool 0 c" if b > 0 else "Qle_bool c 0" if b < 0
+                else "true")
+        parts.append(f"match {call} with Some c => q_within {lo} {hi} "
+                     f"(Qabs c) && {sign} | None => false end")
     return (f"let x := {qlist(x)} in let y := {qlist(y)} in let fit := "
             f"{qlist(fit)} in let cp := {qlit(cp)} in let res := "
             "q_residuals fit y in " + " && ".join(parts))
